@@ -61,3 +61,15 @@ def year_of_month(m):
 def calendar_month(m):
     """0 = January; the simulation starts in May."""
     return (m + 4) % 12
+
+
+def relabelled(contracts, prop):
+    """Contracts of another property re-run under `prop` (same contract objects, own labels): used where a clause of
+    one property IS another property's contract (e.g. C05's "herds never eat more grass than offered" = C07's)."""
+    out = []
+    for c in contracts:
+        sub = type(type(c).__name__ + "_as_" + prop, (type(c),), {"prop": prop})
+        o = sub.__new__(sub)
+        o.__dict__.update(c.__dict__)
+        out.append(o)
+    return out
